@@ -165,5 +165,78 @@ def main():
         print(f"  [{how}] {rel} {desc}")
 
 
+
+
+# ---------------------------------------------------------------------------------------------------------------------
+# whole-package survey:  python -m sa.mutscore --all [--file substr]
+# every mutant of every function of the package is analysed by all twenty checks; a mutant no check reports is listed.
+
+def _all_quals(tree: ast.Module) -> List[str]:
+    out = []
+
+    def visit(body, prefix):
+        for st in body:
+            if isinstance(st, (ast.FunctionDef, ast.AsyncFunctionDef)):
+                out.append(prefix + st.name)
+                visit(st.body, prefix + st.name + ".")
+            elif isinstance(st, ast.ClassDef):
+                visit(st.body, st.name + ".")
+    visit(tree.body, "")
+    return out
+
+
+def run_all(job):
+    rel, desc, src = job
+    d = tempfile.mkdtemp(prefix="sa-mut-")
+    try:
+        shutil.copytree(os.path.join(REPO, "eudoxia"), os.path.join(d, "eudoxia"), ignore=shutil.ignore_patterns("__pycache__"))
+        if os.path.isdir(os.path.join(REPO, "go")):
+            shutil.copytree(os.path.join(REPO, "go"), os.path.join(d, "go"))
+        open(os.path.join(d, rel), "w").write(src)
+        r = subprocess.run(["/venv/bin/python", "-m", "sa.check", "all", "--repo", d], cwd=VERIF, capture_output=True, text=True, env={**os.environ, "SA_OUT": d})
+        fired, errs = [], []
+        for ln in r.stdout.splitlines():
+            if ln.startswith("VIOLATION property="):
+                p = ln.split("property=")[1].split()[0]
+                if p not in fired:
+                    fired.append(p)
+            elif ln.startswith("ANALYSIS-ERROR property="):
+                errs.append(ln.split("property=")[1].split(":")[0])
+        return rel, desc, fired, errs
+    finally:
+        shutil.rmtree(d, ignore_errors=True)
+
+
+def main_all():
+    only = sys.argv[sys.argv.index("--file") + 1] if "--file" in sys.argv else None
+    jobs = []
+    for root, _dirs, files in os.walk(os.path.join(REPO, "eudoxia")):
+        for fn in sorted(files):
+            if not fn.endswith(".py"):
+                continue
+            rel = os.path.relpath(os.path.join(root, fn), REPO)
+            if only and only not in rel:
+                continue
+            src = open(os.path.join(REPO, rel)).read()
+            try:
+                quals = _all_quals(ast.parse(src))
+            except SyntaxError:
+                continue
+            for desc, msrc in mutants_of(src, quals):
+                jobs.append((rel, desc, msrc))
+    n_f = n_e = 0
+    with ThreadPoolExecutor(max_workers=16) as ex:
+        for rel, desc, fired, errs in ex.map(run_all, jobs):
+            tag = "reported" if fired else ("ANALYSIS-ERROR" if errs else "silent")
+            n_f += bool(fired)
+            n_e += bool(errs)
+            print(f"[{tag}] {rel} {desc} :: fired={','.join(fired)} errors={','.join(errs)}", flush=True)
+    print(f"TOTAL {len(jobs)} mutants, {n_f} reported by at least one check, {n_e} with an analysis error")
+
+
+if __name__ == "__main__" and "--all" in sys.argv:
+    main_all()
+    sys.exit(0)
+
 if __name__ == "__main__":
     main()
